@@ -103,6 +103,8 @@ var prologueSpecs = []prologueSpec{
 	{"pkg/controller/services", "svcAcmeClient", "Add", "acme.add", `simAcmeNote("add", item)`},
 	{"pkg/controller/services", "svcAcmeClient", "AddAfter", "acme.addafter", `simAcmeNote("addafter", item)`},
 	{"pkg/controller/services", "svcAcmeClient", "Remove", "acme.remove", `simAcmeNote("remove", item)`},
+	// which queue item (full or partial) a reconciliation was asked with
+	{"pkg/controller/reconciler", "IngressReconciler", "Reconcile", "reconcile.param", `simReconcileNote(req.fullsync)`},
 	// the ACME protocol client (network) is replaced by the one the harness provides
 	{"pkg/acme", "signer", "AcmeAccount", "acme.client", `if SimClientFactory != nil {
 		s.client = nil
